@@ -10,7 +10,7 @@ RULE = ("arrays of 1-4 dims with disjoint label sets, mixed label kinds, distinc
         "array every ordered non-empty subset of its dims x every insert position (and the default) x argument form {tuple,list,set,variadic}; "
         "'unflatten' checks flatten->unflatten for each; 'reshape' draws target lists that permute, regroup (comma names), add a new singleton "
         "and drop singletons; 'tuplereduce' compares reduction over a tuple of dims with the flattened group and NumPy. "
-        "class = (family, ndim, regime, kinds, subset size / target shape); trivial = none")
+        "flatten also with dimensions by position and with reverse=True (names / positions / mixed). class = (family, ndim, regime, kinds, subset size / target shape); trivial = none")
 ANCHORS = ["reshape.flatten", "reshape.unflatten", "reshape.reshape", "axes._get_values", "axes._flatten", "transform._deal_with_axis"]
 # entry points the workload calls itself; the other anchors are helpers behind them (counted as evidence only)
 ANCHORS_REQUIRED = ["reshape.flatten", "reshape.unflatten", "reshape.reshape"]
